@@ -256,3 +256,16 @@ Fixpoint sortedb (ks : list (list N)) : bool :=
   | k1 :: ((k2 :: _) as tl) => bytes_ltb k1 k2 && sortedb tl
   | _ => true
   end.
+
+(* one framed RLP value, as Stream.Raw() delivers it: a single byte < 0x80, or
+   a canonical string / list header followed by exactly the declared number
+   of content bytes (the content itself is not inspected) *)
+Definition raw_value (v : list N) : Prop :=
+  (exists x, v = [x] /\ x < 128) \/
+  (exists c, lenN c < 2 ^ 64 /\
+             (v = enc_head 128 183 (lenN c) ++ c \/ v = enc_head 192 247 (lenN c) ++ c)).
+
+(* field constraints of a record: seq is a uint64, every value is one framed
+   RLP value *)
+Definition rec_ok (r : record) : Prop :=
+  r_seq r < 2 ^ 64 /\ Forall (fun kv => raw_value (snd kv)) (r_pairs r).
